@@ -10,6 +10,7 @@ import (
 	"context"
 	"time"
 
+	eth2p0 "github.com/attestantio/go-eth2-client/spec/phase0"
 	"github.com/prometheus/client_golang/prometheus"
 	"go.opentelemetry.io/otel/codes"
 
@@ -135,8 +136,14 @@ func (a *Aggregator) aggregate(ctx context.Context, pubkey core.PubKey, parSigs 
 		return nil, err
 	}
 
-	// ValidatorIndex is only set by the local VC, not forwarded by peers.
-	var fullSig core.SignedData
+	// ValidatorIndex of an attestation is not covered by the signature and peers do forward theirs:
+	// take the object from a partial whose index most partials agree on, so that a minority of
+	// faulty peers cannot make the aggregate name another validator.
+	var (
+		fullSig   core.SignedData
+		bestCount int
+		counts    = make(map[eth2p0.ValidatorIndex]int)
+	)
 
 	for _, parSig := range parSigs {
 		att, ok := parSig.SignedData.(core.VersionedAttestation)
@@ -145,8 +152,19 @@ func (a *Aggregator) aggregate(ctx context.Context, pubkey core.PubKey, parSigs 
 		}
 
 		if att.ValidatorIndex != nil {
-			fullSig = att
+			counts[*att.ValidatorIndex]++
+		}
+	}
+
+	for _, parSig := range parSigs {
+		att, ok := parSig.SignedData.(core.VersionedAttestation)
+		if !ok {
 			break
+		}
+
+		if att.ValidatorIndex != nil && counts[*att.ValidatorIndex] > bestCount {
+			fullSig = att
+			bestCount = counts[*att.ValidatorIndex]
 		}
 	}
 
